@@ -514,19 +514,29 @@ def concurrent_publish_case(ctx, case: dict) -> None:
             await transport.write(line)
             completed.append(line)
 
-        lines = [f"{i};0;1;{i % 2};{i};p{i}\n" for i in range(1, case["writers"] + 1)]
-        tasks = [asyncio.ensure_future(writer(line)) for line in lines]
-        for _ in range(4):
-            await asyncio.sleep(0)
-        for index in case["cancel"]:
-            if index < len(tasks):
-                tasks[index].cancel()
-                cancelled.append(lines[index])
-        for _ in range(2):
-            await asyncio.sleep(0)
-        FakeClient.publish_gate.set()
-        await asyncio.gather(*tasks, return_exceptions=True)
-        later = [f"9;9;1;0;{90 + i};late{i}\n" for i in range(case["later"])]
+        lines = [f"{i % 250};0;1;{i % 2};{i};p{i}\n" for i in range(1, case["writers"] + 1)]
+        if case.get("all_acked"):
+            lines = [f"{i % 250};0;1;1;{i};p{i}\n" for i in range(1, case["writers"] + 1)]
+        for wave in range(case.get("waves", 1)):
+            # every wave: the broker stalls, the writers wait, some are cancelled, the broker recovers
+            FakeClient.publish_gate = asyncio.Event()
+            if wave == 0:
+                base_lines = wave_lines = list(lines)
+            else:
+                wave_lines = [line.replace(";p", f";w{wave}p") for line in base_lines]
+                lines = lines + wave_lines
+            tasks = [asyncio.ensure_future(writer(line)) for line in wave_lines]
+            for _ in range(4):
+                await asyncio.sleep(0)
+            for index in case["cancel"]:
+                if index < len(tasks):
+                    tasks[index].cancel()
+                    cancelled.append(wave_lines[index])
+            for _ in range(2):
+                await asyncio.sleep(0)
+            FakeClient.publish_gate.set()
+            await asyncio.gather(*tasks, return_exceptions=True)
+        later = [f"9;9;1;{i % 2};{90 + i};late{i}\n" for i in range(case["later"])]
         for line in later:
             await writer(line)
         log.update(completed=completed, cancelled=cancelled, published=list(client.published), lines=lines + later)
@@ -538,7 +548,8 @@ def concurrent_publish_case(ctx, case: dict) -> None:
             ctx.skip("fake-client", "no aiomqtt client seam")
             return
         result, _loop = run_virtual(scenario)
-    ctx.case(("concurrent-publish", case["writers"], tuple(case["cancel"]), case["later"]), sample=case)
+    ctx.case(("concurrent-publish", case["writers"], tuple(case["cancel"]), case["later"], case.get("waves", 1),
+              case.get("all_acked", False)), sample=case if case["writers"] < 10 else {**case, "cancel": f"{len(case['cancel'])} writers"})
     ctx.clause("concurrent-publish")
     if isinstance(result, LogicalDeadlock):
         ctx.violation("mqtt-write-deadlock", "logical deadlock: a write can never complete", case)
@@ -559,6 +570,84 @@ def concurrent_publish_case(ctx, case: dict) -> None:
         ctx.violation("publish-arguments-differ",
                       f"{case['writers']} concurrent writers, cancelled {case['cancel']}: completed writes {must!r:.200} but the "
                       f"client published {published!r:.200}", case)
+
+
+def disconnect_during_publish_case(ctx, variant: str, acked: int) -> None:
+    """disconnect() is called by one task while ANOTHER task's publish is still on its way to a slow broker; then that
+    publish fails, completes, never completes, or its writer is cancelled.  'Disconnect at any time': it completes
+    without raising, the client is exited exactly once, and the object can connect again."""
+    from aiomqtt import MqttError
+
+    from aiomysensors.transport.mqtt import MQTTClient
+
+    case = {"kind": "disconnect-during-publish", "variant": variant, "acked": acked}
+    log: dict = {}
+
+    async def scenario() -> None:
+        transport = MQTTClient("broker.invalid", 1883, in_prefix="in", out_prefix="out")
+        await transport.connect()
+        client = FakeClient.instances[-1]
+        FakeClient.publish_gate = asyncio.Event()
+        writer = asyncio.ensure_future(transport.write(f"1;0;1;{acked};2;on the way\n"))
+        for _ in range(4):
+            await asyncio.sleep(0)
+        closing = asyncio.ensure_future(transport.disconnect())
+        for _ in range(3):
+            await asyncio.sleep(0)
+        if variant == "publish-fails":
+            FakeClient.publish_error = MqttError("broker went away")
+            FakeClient.publish_gate.set()
+        elif variant == "writer-cancelled":
+            writer.cancel()
+        elif variant == "publish-completes":
+            FakeClient.publish_gate.set()
+        done, _pending = await asyncio.wait([closing], timeout=30)
+        if not done:
+            log["disconnect"] = "pending after 30 virtual seconds"
+            closing.cancel()
+        else:
+            log["disconnect"] = closing.exception() if not closing.cancelled() else asyncio.CancelledError()
+        writer.cancel()
+        await asyncio.gather(writer, closing, return_exceptions=True)
+        log["exited"] = client.exited
+        FakeClient.publish_gate = None
+        FakeClient.publish_error = None
+        try:
+            await transport.connect()
+            await transport.write("2;0;1;0;2;again\n")
+            log["again"] = list(FakeClient.instances[-1].published)[-1:]
+            await transport.disconnect()
+        except Exception as exc:  # noqa: BLE001
+            log["again"] = exc
+
+    with install() as seam:
+        if not seam:
+            return
+        result, _loop = run_virtual(scenario)
+    ctx.case(("disconnect-during-publish", variant, acked), sample=case)
+    ctx.clause("disconnect-during-publish")
+    if isinstance(result, LogicalDeadlock):
+        ctx.violation("mqtt-disconnect-deadlock", f"logical deadlock ({variant})", case)
+        return
+    if isinstance(result, BaseException):
+        ctx.violation("disconnect-during-publish-raised", f"{type(result).__name__}: {result!s:.80}", case)
+        return
+    outcome = log.get("disconnect")
+    if isinstance(outcome, BaseException):
+        ctx.violation("disconnect-raises", f"disconnect() while another task's publish was pending ({variant}) raised "
+                                           f"{type(outcome).__name__}: {outcome!s:.80}", case)
+    elif isinstance(outcome, str) and variant != "publish-stalls":
+        ctx.violation("disconnect-hangs", f"disconnect() while another task's publish was pending ({variant}): {outcome}", case)
+    elif isinstance(outcome, str):
+        ctx.obs("disconnect-waits-for-stalled-publish")
+    if log.get("exited") != 1 and not isinstance(outcome, str):
+        ctx.violation("disconnect-not-called", f"after disconnect ({variant}) the aiomqtt client was exited {log.get('exited')} times",
+                      case)
+    if isinstance(log.get("again"), BaseException):
+        ctx.obs("reconnect-after-racing-disconnect-refused:" + type(log["again"]).__name__)
+    elif log.get("again") != [("out/2/0/1/0/2", "again", 0, False)]:
+        ctx.violation("publish-arguments-differ", f"after a disconnect that raced a publish ({variant}) the next session "
+                                                  f"published {log.get('again')!r:.120}", case)
 
 
 # ----------------------------------------------------------------------------- mini broker (thorough)
@@ -636,6 +725,8 @@ def run_case(ctx, case: dict) -> None:
         client_script_case(ctx, script, tuple(case["prefixes"]))
     elif kind == "concurrent-publish":
         concurrent_publish_case(ctx, case)
+    elif kind == "disconnect-during-publish":
+        disconnect_during_publish_case(ctx, case["variant"], case["acked"])
     elif kind == "client-burst":
         client_burst_case(ctx, case["n"])
     elif "backlog" in case:
@@ -686,6 +777,18 @@ def run(ctx) -> None:
                     if ctx.mine(index):
                         concurrent_publish_case(ctx, {"kind": "concurrent-publish", "writers": writers,
                                                       "cancel": sorted(set(c for c in cancel if 0 <= c < writers)), "later": later})
+        # many cancelled in-flight publishes on ONE client object (per-message resources that leak on cancellation: slots
+        # of an in-flight window, entries of a pending table): sizes around the round numbers such windows have
+        for i, (writers, waves) in enumerate([(8, 3), (21, 1), (33, 2), (65, 1), (130, 1), (12, 10), (1030, 1)]):
+            if ctx.mine(i + 2):
+                for all_acked in (True, False):
+                    concurrent_publish_case(ctx, {"kind": "concurrent-publish", "writers": writers, "waves": waves,
+                                                  "cancel": list(range(writers)) if all_acked else list(range(0, writers, 2)),
+                                                  "later": 4, "all_acked": all_acked})
+        for i, variant in enumerate(("publish-fails", "writer-cancelled", "publish-completes", "publish-stalls")):
+            for acked in (0, 1):
+                if ctx.mine(i * 2 + acked):
+                    disconnect_during_publish_case(ctx, variant, acked)
         for i, n in enumerate((100, 1500, ctx.pick(3000, 40000))):
             if ctx.mine(i + 1):
                 client_burst_case(ctx, n)
